@@ -22,7 +22,7 @@ def _raised():
     from .engine import Raised
     return Raised
 
-from .values import (NONE, VBool, VConst, VDict, VExc, VInt, VList, VNone, VObj, VStr, VTuple,
+from .values import (NONE, VBool, VConst, VDict, VExc, VInt, VList, VNone, VObj, VStr, VSymCache, VTuple,
                      Unsupported, lit)
 
 
@@ -77,10 +77,62 @@ def call_method(ex, st, recv, name, args, kwargs, node):
         if name == "items":
             yield VList([VTuple([lit(k), v]) for k, v in recv.d.items()]), st
             return
+        if name == "copy":
+            yield VDict(dict(recv.d), fresh=True), st
+            return
+        if name == "pop" and isinstance(args[0], VStr) and args[0].conc is not None:
+            ex.check_frame(st, recv, node)
+            yield recv.d.pop(args[0].conc, args[1] if len(args) > 1 else NONE), st
+            return
         raise Unsupported(f"dict.{name}")
+    if isinstance(recv, VSymCache):
+        yield from symcache_method(ex, st, recv, name, args, kwargs, node)
+        return
     if isinstance(recv, VTuple):
         raise Unsupported(f"tuple.{name}")
     raise Unsupported(f"method {name} on {recv!r}")
+
+
+def symcache_lookup(ex, st, cache, key, node):
+    """entries of a memo that was filled earlier: absent (yields None) or the lazy value"""
+    from contracts import spec_url
+    from .verify import call_spec, to_spec_arg
+    if key in cache.removed:
+        yield None, st
+        return
+    fn = spec_url.MEMO_SPECS.get(key)
+    if fn is None:
+        raise Unsupported(f"memo key {key!r} without a lazy definition")
+    present = opaque_bool(st.ctx, f"memo-has[{key}]", id(cache))
+    for b, s2 in ex.branch(st, present):
+        if not b:
+            yield None, s2
+            continue
+        for v, s3 in call_spec(ex, s2, ex.wrap(fn), [to_spec_arg(cache.owner)], {}, node):
+            yield v, s3
+
+
+def symcache_method(ex, st, cache, name, args, kwargs, node):
+    if name == "get":
+        key = args[0].conc
+        if key in cache.extra:
+            yield cache.extra[key], st
+            return
+        for v, s2 in symcache_lookup(ex, st, cache, key, node):
+            yield (v if v is not None else (args[1] if len(args) > 1 else NONE)), s2
+        return
+    if name == "copy":
+        yield VSymCache(cache.owner, cache.removed, cache.extra), st
+        return
+    if name == "pop":
+        key = args[0].conc
+        cache.removed.add(key)
+        cache.extra.pop(key, None)
+        yield NONE, st         # the popped value is not used by the code base
+        return
+    if name == "clear":
+        raise Unsupported("clearing a memo")
+    raise Unsupported(f"memo.{name}")
 
 
 def list_method(ex, st, recv, name, args, kwargs, node):
@@ -467,8 +519,12 @@ def b_enumerate(ex, st, args, kwargs, node):
 
 
 def b_hash(ex, st, args, kwargs, node):
-    # hash of a value is a function of the value: modelled per component
-    raise Unsupported("hash")
+    # hash of a tuple of strings: an opaque function of the contents (library contract)
+    v = args[0]
+    if isinstance(v, VTuple) and all(isinstance(x, VStr) for x in v.items):
+        yield VInt(V.hash_of(st.ctx, v.items)), st
+        return
+    raise Unsupported("hash of this value")
 
 
 # ------------------------------------------------------------------ regex / unicodedata (opaque, functional)
@@ -556,7 +612,12 @@ def p_cut(ex, st, args, kwargs, node):
     yield NONE, st
 
 
+def p_hash_parts(ex, st, args, kwargs, node):
+    yield VInt(V.hash_of(st.ctx, list(args))), st
+
+
 SPEC_PRIMS = {
+    "hash_parts": p_hash_parts,
     "CUT": p_cut,
     "first_of": p_first_of, "first_not_of": p_first_not_of, "last_index": p_last_index,
     "all_chars_in": p_all_chars_in, "lower_ascii": p_lower_ascii, "remove_char": p_remove_char,
@@ -617,6 +678,7 @@ def install(ex):
     add(builtins.list, "list", b_list)
     add(builtins.reversed, "reversed", b_reversed)
     add(builtins.enumerate, "enumerate", b_enumerate)
+    add(builtins.hash, "hash", b_hash)
     add(re.match, "re.match", re_match)
     add(unicodedata.normalize, "unicodedata.normalize", ud_normalize)
     ex.assumed_contracts = set()
